@@ -10,12 +10,12 @@ import time
 
 ROOT = os.path.dirname(os.path.dirname(os.path.abspath(__file__)))
 REPO = os.environ.get("VERIF_REPO", "/repo")
-WORK = os.path.join(ROOT, "work")
+WORK = os.environ.get("VERIF_WORK") or os.path.join(ROOT, "work")   # scratch; VERIF_WORK lets two runs of one check coexist
 HARNESS = os.path.join(ROOT, "harness")
 VDRIVER = os.path.join(HARNESS, "target", "release", "vdriver")
 CLI_TARGET = os.path.join(ROOT, "target", "cli")
 CLI = os.path.join(CLI_TARGET, "release", "bindgen")
-EVIDENCE = os.path.join(ROOT, "evidence")
+EVIDENCE = os.environ.get("VERIF_EVIDENCE") or os.path.join(ROOT, "evidence")
 REPLAY = os.path.join(ROOT, "replay")
 FINDINGS = os.path.join(ROOT, "KNOWN_FINDINGS.jsonl")
 NCPU = os.cpu_count() or 8
